@@ -27,6 +27,7 @@ from pathlib import Path
 from typing import Any, Dict, List, Optional, Tuple
 
 PROP = "C06"
+RUN_TAG = f"run_{os.getpid()}"
 BUILTINS = ["int", "float", "str", "bool", "datetime"]
 BCODE = {"int": 1, "float": 2, "str": 3, "bool": 4, "datetime": 5}
 SHAPES = ["plain", "opt", "list", "set"]
@@ -91,7 +92,7 @@ def case_key(d) -> str:
 def case_dir(d) -> Path:
     from . import core
     h = hashlib.sha1(case_key(d).encode()).hexdigest()[:12]
-    return core.WORK / PROP / f"m_{h}"
+    return core.WORK / PROP / RUN_TAG / f"m_{h}"     # per-process scratch: concurrent runs of this check do not share files
 
 
 # ------------------------------------------------------------------------------------------------
@@ -727,7 +728,7 @@ def evaluate(rep, descrs: List[dict], model_ok: bool, label: str, det_fraction: 
                          f"   SL [case_gen M o; case_obs M o; spec_obs M; case_info M o]")
         else:
             exprs.append(f"let M := {model_term(d)} in SL [SL []; SL []; spec_obs M; SL []]")
-    vals = core.coq_values(PROP, HEADER if model_ok else HEADER_SPEC, exprs, chunk=max(1, (len(exprs) + 15) // 16), tag=label)
+    vals = core.coq_values(PROP, HEADER if model_ok else HEADER_SPEC, exprs, chunk=max(1, (len(exprs) + 15) // 16), tag=f"{label}_{RUN_TAG}")
     recs = []
     for i, (d, r, v) in enumerate(zip(descrs, main_res, vals)):
         recs.append({"d": d, "res": r, "model_gen": v[0], "model_obs": v[1], "spec_obs": v[2], "info": v[3],
@@ -784,11 +785,9 @@ def _judge(rep, rec, model_ok: bool, findings_seen: Dict[str, int]) -> str:
                 base["generator_vs_model"] = {"impl": D(impl_gen), "model": D(rec["model_gen"])}
                 if not any(o.name == "correspondence:model" and not o.ok for o in rep.obligations):
                     rep.oblige("correspondence:model", False, f"ORMatic's tables/columns/association tables/imports differ from the Gallina model, first on {d['module']}")
-            elif not topo_ok and has_unmapped_intermediate(d) and not parents_first(d, [t["cls"] for t in r["gen"]["tables"]]):
-                kclasses = ["K_unmappedorder"] + kclasses      # C06-i: emission order ignores parents reached through unmapped bases
             elif not topo_ok:
                 rep.violation(dict(base, kind="counterexample", impl=D(impl_gen),
-                                   explanation="tables are not emitted parents-first / not one table per class"))
+                                   explanation="tables are not one per class in a topological order of the inheritance graph (direct mapped base and first mapped class of the MRO before the class)"))
                 return "violation"
     if model_ok and not stale:
         code = classify(impl_obs, rec["model_obs"], spec)
@@ -827,13 +826,6 @@ def judge_determinism(rep, rec, findings_seen=None) -> bool:
                        "explanation": f"non-deterministic generation: file text differs between two fresh processes with different PYTHONHASHSEED "
                                       f"({r.get('text_sha')} vs {h.get('text_sha')}, second stage={h.get('stage')} {h.get('error')})"})
         ok = False
-    if "gen" in r and "gen" in s and has_unmapped_intermediate(d) and canon_gen(enc_gen(s["gen"])) == canon_gen(enc_gen(r["gen"])) \
-            and enc_obs(s) != enc_obs(r) and [0] in (enc_obs(s), enc_obs(r)) \
-            and not all(parents_first(d, [t["cls"] for t in x["gen"]["tables"]]) for x in (r, s)):
-        # C06-i seen through the hand-over order: same tables, but one of the two emission orders puts a derived DAO first
-        if findings_seen is not None:
-            findings_seen["K_unmappedorder"] = findings_seen.get("K_unmappedorder", 0) + 1
-        return ok
     if "gen" in r and ("gen" not in s or canon_gen(enc_gen(s["gen"])) != canon_gen(enc_gen(r["gen"])) or enc_obs(s) != enc_obs(r)):
         rep.violation({"kind": "counterexample", "case": d, "python": snippet(d),
                        "explanation": "generation depends on the order in which the classes are handed to ClassDiagram: tables / mapped layer differ "
@@ -900,7 +892,7 @@ def run(tier: str, seed: int, replay=None) -> int:
                            "ClassDiagram and a fresh ORMatic over the same class objects; every such generation must give a byte-identical file and "
                            "identical ORMatic containers. Across processes: other PYTHONHASHSEED (byte-identical) and shuffled hand-over order (same tables).")
     rep.assume = ["class and field names are ASCII identifiers; every class is a dataclass with at most one base, bases belong to the model",
-                  "the emission order handed to the model is the one observed from rustworkx.topological_sort; the model checks it is parents-first"]
+                  "rustworkx.topological_sort returns a topological order of the graph it is given: the emission order handed to the model is the observed one and is checked on every case to be a topological order of ORMatic's inheritance graph (impl_order); that every such order is parents-first is C06_impl_order_is_topo"]
     rep.rule = ("random class models (1-5 classes, 0-6 fields each over scalars/Optional/enums/datetime/JSON lists/references/Optional references/"
                 "collections/private fields/redeclared inherited fields, inheritance depth 0-3, self and mutual references, several collections of one "
                 "target, shuffled hand-over order); one fresh subprocess per model, in which the layer is generated 2-4 times (steps: same = fresh ClassDiagram+ORMatic, shared = second ORMatic on the same ClassDiagram, other = a different model in between); distinct = distinct model text; non-trivial = at least one table "
@@ -985,6 +977,8 @@ def run(tier: str, seed: int, replay=None) -> int:
         rep.violation({"kind": "counterexample", "explanation": f"models of class {k} fail and no known finding lists that class"})
     rep.extra["distribution"] = {"models_with_feature": dist, "outcomes": labels, "models": len(descrs)}
     rep.extra["impl_seconds"] = round(time.time() - t0, 1)
+    if not rep.violations:
+        shutil.rmtree(core.WORK / PROP / RUN_TAG, ignore_errors=True)
     return rep.finish()
 
 
